@@ -156,6 +156,35 @@ func init() {
 			}
 		}
 		rec(nil)
+		// sessions: ONE runtime loads from several files in turn, two of which share their base name in different
+		// directories (root/main.lisp and root/sub/main.lisp); whatever was loaded before, a relative location
+		// resolves against the directory of the file doing the loading NOW
+		must(os.WriteFile(filepath.Join(W, "root", "sub", "main.lisp"), []byte("'in-submain\n"), 0o644))
+		sessCtx := map[string]string{"main": filepath.Join(W, "root", "main.lisp"), "subx": filepath.Join(W, "root", "sub", "x.lisp"),
+			"submain": filepath.Join(W, "root", "sub", "main.lisp")}
+		orders := [][]string{{"main", "submain", "main"}, {"submain", "main", "submain"}, {"main", "subx", "submain", "main"},
+			{"subx", "submain", "main", "subx"}, {"main", "main", "submain", "submain"}}
+		for _, root := range in.Roots {
+			for oi, order := range orders {
+				for _, target := range []string{"a.lisp", "b.lisp", "../a.lisp", "sub/b.lisp", "sub/../a.lisp"} {
+					lib := &lisp.RelativeFileSystemLibrary{RootDir: rootPath[root]}
+					env := lisp.NewEnv(nil)
+					env.Runtime.Reader = parser.NewReader()
+					env.Runtime.Library = lib
+					if rc := lisp.InitializeUserEnv(env); rc.Type == lisp.LError {
+						must(fmt.Errorf("%v", rc))
+					}
+					for step, ctx := range order {
+						v := env.LoadLocation(filepath.Base(sessCtx[ctx]), sessCtx[ctx], strings.NewReader(fmt.Sprintf("(load-file %q)", target)))
+						m := ""
+						if v.Type == lisp.LSymbol {
+							m = v.Str
+						}
+						out.emit(J{"session": true, "root": root, "order": oi, "step": step, "ctx": ctx, "comps": strings.Split(target, "/"), "marker": m})
+					}
+				}
+			}
+		}
 		out.emit(J{"summary": true, "cases": ncase})
 	}
 }
